@@ -83,3 +83,77 @@ def positive_on_path(term, lows, conds, integer=True):
     if lb is not None and lb <= 0:
         return False
     return None
+
+
+# ------------------------------------------------------------------ exact evaluation of integer count expressions
+_COUNT_OPS = ("ceil", "floor", "trunc", "floordiv", "max", "min", "int", "mod")
+
+
+def eval_count(term, env):
+    """Value (a Fraction) of a count expression - sums / products / quotients of integer symbols and ceil, floor, trunc, //, %,
+    max, min of such - under env {symbol: int}; None when the term leaves this vocabulary."""
+    import math
+
+    if isinstance(term, (int, Fraction)):
+        return Fraction(term)
+    if not isinstance(term, T.Poly):
+        return None
+    total = Fraction(0)
+    for mono, c in term.terms.items():
+        v = Fraction(c)
+        for a, pw in mono:
+            if isinstance(a, T.Sym):
+                if a.name not in env:
+                    return None
+                x = Fraction(env[a.name])
+            elif isinstance(a, T.App) and a.op == "group":
+                x = eval_count(a.args[0], env)
+            elif isinstance(a, T.App) and a.op in _COUNT_OPS:
+                xs = [eval_count(z, env) for z in a.args if isinstance(z, (T.Poly, int, Fraction))]
+                if any(z is None for z in xs) or not xs:
+                    return None
+                if a.op == "ceil":
+                    x = Fraction(math.ceil(xs[0]))
+                elif a.op == "floor":
+                    x = Fraction(math.floor(xs[0]))
+                elif a.op in ("trunc", "int"):
+                    x = Fraction(int(xs[0]))
+                elif a.op == "floordiv":
+                    if len(xs) != 2 or xs[1] == 0:
+                        return None
+                    x = Fraction(math.floor(xs[0] / xs[1]))
+                elif a.op == "mod":
+                    if len(xs) != 2 or xs[1] == 0:
+                        return None
+                    x = xs[0] - xs[1] * math.floor(xs[0] / xs[1])
+                elif a.op == "max":
+                    x = max(xs)
+                else:
+                    x = min(xs)
+            else:
+                return None
+            if x is None or (x == 0 and pw < 0):
+                return None
+            v *= x ** pw
+        total += v
+    return total
+
+
+def count_compare(got, want, syms, lo=1, hi=13):
+    """Compare two count expressions on the grid lo..hi of every symbol: ('equal', None) | ('differs', {env, got, want}) | None
+    (not evaluable).  Both sides are quasi-polynomials with small periods in this vocabulary; a difference has a small witness."""
+    import itertools
+
+    syms = sorted(syms)
+    if len(syms) > 3:
+        return None
+    seen = False
+    for vals in itertools.product(range(lo, hi + 1), repeat=len(syms)):
+        env = dict(zip(syms, vals))
+        g, w = eval_count(got, env), eval_count(want, env)
+        if g is None or w is None:
+            return None
+        seen = True
+        if g != w:
+            return ("differs", {"env": env, "got": g, "want": w})
+    return ("equal", None) if seen else None
